@@ -204,7 +204,7 @@ impl Driver for C11 {
         "C11"
     }
     fn units(&self, tier: Tier) -> usize {
-        tier.pick(400, 4000)
+        tier.pick(400, 40000)
     }
     fn run_unit(&self, ctx: &Ctx, out: &mut UnitOut, _start: usize, only: Option<usize>) {
         let mut rng = unit_rng(ctx, "C11", out.unit);
